@@ -91,12 +91,13 @@ MW = [
 MW_LABELS = [m[0] for m in MW]
 
 # one multi-worker case every PERIOD cases
-PERIOD = {"quick": 32, "thorough": 24}
+PERIOD = {"quick": 32, "thorough": 36}
 BUDGET = {
     "quick": dict(cases=128, shards=4, timeout=600),
     "thorough": dict(cases=360, shards=16, timeout=1500),
 }
 MW_TIMEOUT = {"quick": 120, "thorough": 240}
+MW_SLOTS = 6  # multi-worker cases in flight over all shards (each is up to ~12 interpreters importing torch)
 
 _SUBS = {
     "trn": ["plain", "unk", "empty", "alt", "skip", "feat", "hostile_ids", "spacing"],
@@ -118,11 +119,11 @@ FLOORS = {
     },
     "thorough": {
         "events": dict({c: 100 for c in R.CMDS if c != "chunk_torch_spect_data_dir"},
-                       **{"assert:worker-independence": 500, "assert:worker-items-once": 500}),
+                       **{"assert:worker-independence": 350, "assert:worker-items-once": 350}),
         "classes": dict({f: 400 for f in INPROC}, **{"affix:prefix": 500, "affix:suffix": 500, "ali:prefix": 80,
-                                                     "multi-worker": 400}),
-        "stats": {"mw_ok:" + lab: 15 for lab in MW_LABELS},
-        "sets": {"completion_orders": 150, "reordered_completions": 40},
+                                                     "multi-worker": 120}),
+        "stats": {"mw_ok:" + lab: 8 for lab in MW_LABELS},
+        "sets": {"completion_orders": 120, "reordered_completions": 60},
         "distinct": 3500,
     },
 }
@@ -204,7 +205,9 @@ def execute(case, mon):
         out0 = R.drive_inproc(produce(case, d0), mon)
         judge(case, out0, mon)
         if "target" in case and not os.environ.get("VMON_C17_NO_MW"):  # developer knob: floors then fail
-            _multi_worker(case, mon, root, produce, judge, out0)
+            with R.Slots(MW_SLOTS) as slot:
+                mon.stat("mw_slot_wait_ms", int(getattr(slot, "waited", 0) * 1000))
+                _multi_worker(case, mon, root, produce, judge, out0)
     finally:
         shutil.rmtree(root, ignore_errors=True)
 
